@@ -35,6 +35,10 @@ func c10(r *core.Run) {
 	r.Rule("D1", "model diff: the delete action is stored exactly on the not-present edge of the lookup in the new map, a key is reported only where it is new or Value.Equal is false, and the resulting map is what ChangeEvent receives", 3)
 
 	c11CacheCoherence(r, "B1", "store/badgerstore")
+	r.Rule("P1", "events are addressed to the registered resource (shared with C06.R11): the store handler learns its pattern from OnRegister, which for handlers added before the mux is attached comes from the registration-time traversal of the trie; that traversal must rebind the mount index at mount points like the matcher does, otherwise a handler below a nested mount is told a pattern with its placeholder on the wrong token, IDToRID yields an id no handler matches, and every change event for the resource is dropped", 2)
+	if ro := resolveMuxRolesFor(r, "P1"); ro != nil {
+		c06MountAware(r, "P1", ro)
+	}
 	transF, ok1 := fieldByType(p, rel, "storeHandler", func(t types.Type) bool { return core.TypeName(t) == qual(rel, "Transformer") })
 	defF, ok2 := fieldByType(p, rel, "storeHandler", func(t types.Type) bool {
 		return types.TypeString(t, nil) == "encoding/json.RawMessage" || isEmptyIface(t)
